@@ -248,7 +248,57 @@ Proof.
   destruct args as [|a0 args'].
   - cbn in Es. discriminate.
   - destruct a0 as [q0|e0'], args' as [|a1 args'']; try discriminate.
-    + cbn in Es. discriminate.
     + exact (Hbody _ eq_refl H).
     + exact (Hbody _ eq_refl H).
+Qed.
+
+(* ---------------------------------------------------------------- hadamard_product *)
+Lemma had_step_noexn st x c : had_step st x <> ErrExn c.
+Proof.
+  unfold had_step. destruct x; try discriminate.
+  - destruct (h_ident st); discriminate.
+  - destruct (h_diag st); [|discriminate]. pose proof (zipc_noexn emul l d 0 c).
+    destruct (zipc emul l d 0); cbn [bind]; congruence.
+  - destruct (h_dense st) as [[[? ?] ?]|]; [|discriminate]. pose proof (zipc_noexn emul v l 0 c).
+    destruct (zipc emul v l 0); cbn [bind]; congruence.
+Qed.
+
+Lemma had_loop_noexn l st c : had_loop l st <> ErrExn c.
+Proof.
+  revert st. induction l as [|x l IH]; intros st; cbn [had_loop]; [discriminate|].
+  pose proof (had_step_noexn st x c). destruct (had_step st x) as [[z|st1]| | |]; cbn [bind]; try congruence; auto.
+Qed.
+
+Lemma had_dense_diag_noexn m n v d c : had_dense_diag m n v d <> ErrExn c.
+Proof.
+  unfold had_dense_diag. apply mapM_noexn. intros i. unfold dget.
+  pose proof (rd_noexn v (i * n + i) c). destruct (rd v (i * n + i)); cbn [bind]; try congruence.
+  pose proof (rd_noexn d i c). destruct (rd d i); cbn [bind]; congruence.
+Qed.
+
+Theorem hadamard_product_error_sound rho fs :
+  hadamard_product fs = ErrExn EXN_DOMAIN -> shp rho (MHad fs) = None.
+Proof.
+  intros H. rewrite shp_MHad. destruct (shape_all (map (shp rho) fs)) as [s|] eqn:E; [|reflexivity]. exfalso.
+  apply shape_all_Forall in E. destruct E as [Hne Hall].
+  unfold hadamard_product in H. destruct fs as [|t0 [|t1 rest]]; [congruence | discriminate |].
+  set (terms := t0 :: t1 :: rest) in *.
+  destruct (check_matching_sizes (flatten_had terms)) as [[]| | |] eqn:Ec; cbn [bind] in H; try discriminate.
+  - pose proof (had_loop_noexn (flatten_had terms)
+                  {| h_keep := []; h_diag := None; h_dense := None; h_ident := false |} EXN_DOMAIN) as Hf.
+    destruct (had_loop (flatten_had terms) _) as [[z|st]| | |]; cbn [bind] in H; try discriminate; [|congruence].
+    destruct (h_dense st) as [[[m n] v]|].
+    + destruct (h_diag st) as [d|].
+      * pose proof (had_dense_diag_noexn m n v d EXN_DOMAIN).
+        destruct (had_dense_diag m n v d) as [pd| | |]; cbn [bind fst snd] in H; try discriminate; try congruence.
+        destruct (h_keep st ++ [MDiag pd]) as [|? [|? ?]]; discriminate.
+      * cbn [bind fst snd] in H. destruct (h_keep st ++ [MDense m n v]) as [|? [|? ?]]; discriminate.
+    + cbn [bind fst snd] in H. destruct (h_diag st) as [d|].
+      * destruct (h_keep st ++ [MDiag d]) as [|? [|? ?]]; discriminate.
+      * destruct (h_keep st) as [|? [|? ?]]; discriminate.
+  - inversion H; subst.
+    pose proof (check_fail_sound rho _ _ Ec) as Hc.
+    pose proof (flatten_had_shape rho terms s Hall) as Hfl.
+    pose proof (flatten_had_nonempty rho terms s Hne Hall) as Hfne.
+    rewrite (Forall_shape_all rho _ s Hfne Hfl) in Hc. discriminate.
 Qed.
